@@ -16,6 +16,10 @@ from symcore import sarray as S
 from symcore import values as V
 from symcore.evidence import Report
 from symcore.solver import Session
+from props.e2common import E2Report
+from props import loops as L
+from props import loopworld as W
+from e2_pysym import core as E
 
 PROP = "C06"
 
@@ -37,7 +41,8 @@ def main(tier, seed):
     from rl_blox.blox import target_net
 
     tp = tier_params(tier)
-    rep = Report(PROP, tier, seed)
+    e2rep = E2Report(PROP, tier, seed)
+    rep = e2rep.r
     sess = Session(tp["timeout"])
     sess.keep_smt2 = tier == "thorough"
     modules = {
@@ -54,7 +59,8 @@ def main(tier, seed):
     rep.bounds = {"module_types": list(modules), "tau": "symbolic real in [0,1] (un-jitted body) and jitted with tau in " + str(taus),
                   "sizes": "2 inputs, hidden [2], 1-2 outputs; every leaf of nnx.state is an obligation"}
     rep.assumptions = ["real-number semantics", "both networks are passed as one pytree, so storage sharing between them would be visible",
-                       "cadence (updates only at the documented steps) and clone-independence in training loops are NOT covered by this check yet"]
+                       "cadence: training loops run on the recording world of C01/C11 (bounded steps); nnx.clone is a recording stub that returns a fresh object "
+                       "(flax's own no-aliasing guarantee for clone is trusted)"]
     soft_body = unjit(target_net.soft_target_net_update)
 
     for name, mk in modules.items():
@@ -139,7 +145,140 @@ def main(tier, seed):
             rep.inconclusive_("cross-check", f"{bad} z3/cvc5 disagreements")
     rep.add_queries(sess)
     rep.samples = [o["name"] for o in rep.obligations if o["kind"].startswith("obligation")][:12]
-    return rep.finish()
+    _cadence(e2rep, tier)
+    return e2rep.finish()
+
+
+def _events_at(tr, name):
+    d = {}
+    for (kind, at, p) in tr.w.of(name):
+        d.setdefault(at, []).append(p)
+    return d
+
+
+def _is(a, b):
+    return a is b
+
+
+def _cadence(rep, tier):
+    Ks = [2, 3] if tier == "quick" else [2, 3, 4, 5]
+    rep.r.bounds["cadence"] = {"steps_K": Ks, "global_step": [0, 2], "symbolic": "flags, learning_starts, batch_size, target/policy delays in [1,3]"}
+
+    def dqn_prog(which, K, start):
+        def prog(ctx):
+            tr = L.run_dqn_family(ctx, which, K, start, symbolic=("batch_size", "target_update_frequency"))
+            ev = _events_at(tr, "hard_target_net_update")
+            f, bs = tr.cfg["target_update_frequency"], tr.cfg["batch_size"]
+            tgt = tr.result.q_target_net
+            ctx.check(tgt is not tr.cfg["q"], "target-network-shares-no-storage-with-the-online-network(distinct clone)")
+            ctx.check(any(p["src"] is tr.cfg["q"] and p["dst"] is tgt for (_, _, p) in tr.w.of("clone")), "target-network-is-a-clone-of-the-online-network")
+            for k in range(1, tr.env.n_steps + 1):
+                s_ = tr.loop_step_of(k)
+                want = (s_ > bs) & ((s_ % f) == 0)
+                got = len(ev.get(k, []))
+                ctx.check((got == 1) == want, "hard-update-exactly-at-steps>batch_size-that-are-multiples-of-the-target-frequency")
+                ctx.check(got <= 1, "at-most-one-target-update-per-step")
+                for p in ev.get(k, []):
+                    ctx.check(p["args"][0] is tr.cfg["q"] and p["args"][1] is tgt, "hard-update-copies-online->target")
+        return prog
+    for which in ("nature_dqn", "ddqn", "per"):
+        for K in Ks:
+            for start in (0, 2):
+                rep.run(f"cadence:train_{which}[K={K},global_step={start}]", dqn_prog(which, K, start), fn=f"rl_blox.algorithm.{which}", site_of=lambda label, which=which: f"train_{which}:{label}")
+
+    def cont_prog(which, K, start):
+        def prog(ctx):
+            tr = L.run_continuous(ctx, which, K, start, symbolic=("learning_starts", "policy_delay", "target_network_delay"))
+            ev = _events_at(tr, "soft_target_net_update")
+            ls = tr.cfg["learning_starts"]
+            pol, q = tr.cfg["policy"], tr.cfg["q"]
+            qt, pt = tr.cfg["q_target"], tr.cfg["policy_target"]
+            ctx.check(qt is not q, "target-network-shares-no-storage-with-the-online-network(distinct clone)")
+            ctx.check(any(p["src"] is q and p["dst"] is qt for (_, _, p) in tr.w.of("clone")), "target-network-is-a-clone-of-the-online-network")
+            if which != "sac":
+                ctx.check(pt is not pol and any(p["src"] is pol and p["dst"] is pt for (_, _, p) in tr.w.of("clone")), "target-policy-is-a-distinct-clone")
+            for k in range(1, tr.env.n_steps + 1):
+                s_ = tr.loop_step_of(k)
+                if which == "ddpg":
+                    want, n_want = (s_ >= ls), 2
+                elif which in ("td3", "td3_lap"):
+                    want, n_want = (s_ >= ls) & ((s_ % tr.cfg["policy_delay"]) == 0), 2
+                else:
+                    want, n_want = (s_ >= ls) & ((s_ % tr.cfg["target_network_delay"]) == 0), 1
+                got = ev.get(k, [])
+                ctx.check((len(got) == n_want) == want, "soft-updates-exactly-at-the-documented-update-points")
+                ctx.check((len(got) == 0) | (len(got) == n_want), "no-partial-target-update")
+                pairs = [(p["args"][0], p["args"][1]) for p in got]
+                for (a, b) in pairs:
+                    ctx.check((a is q and b is qt) or (a is pol and b is pt), "soft-update-goes-online->its-own-target")
+                for p in got:
+                    ctx.check(p["args"][2] == tr.cfg["tau"], "soft-update-uses-the-configured-tau")
+        return prog
+    for which in ("ddpg", "td3", "td3_lap", "sac"):
+        for K in Ks:
+            rep.run(f"cadence:train_{which}[K={K}]", cont_prog(which, K, 0), fn=f"rl_blox.algorithm.{which}", site_of=lambda label, which=which: f"train_{which}:{label}")
+
+    def td7_prog(K):
+        def prog(ctx):
+            tr = L.run_td7(ctx, K, 0, symbolic=("learning_starts", "target_delay"), use_checkpoints=False)
+            hard = _events_at(tr, "hard_target_net_update")
+            its = tr.w.of("train_iteration")
+            td = tr.cfg["target_delay"]
+            for (_, at, p) in its:
+                pass
+            # every train iteration with epoch % target_delay == 0 performs exactly the four documented copies; others none
+            by_at = {}
+            for (_, at, p) in its:
+                by_at.setdefault(at, []).append(p["epoch"])
+            for at, epochs in by_at.items():
+                n_due = 0
+                for ep in epochs:
+                    due = (ep % td) == 0
+                    n_due = n_due + (E.wrap(E.z3.If(E.as_z3_bool(due), 4, 0)) if not isinstance(due, bool) else (4 if due else 0))
+                ctx.check(len(hard.get(at, [])) == n_due, "td7:hard-updates-exactly-when-epoch-is-a-multiple-of-target_delay")
+            for at, lst in hard.items():
+                ctx.check(at in by_at, "td7:targets-change-only-inside-train-iterations")
+            res = tr.result
+            ctx.check(res.fixed_embedding is not tr.cfg["embedding"] and res.fixed_embedding_target is not tr.cfg["embedding"] and res.fixed_embedding is not res.fixed_embedding_target,
+                      "td7:fixed-embeddings-are-distinct-clones")
+            ctx.check(res.actor_target is not tr.cfg["actor"] and res.critic_target is not tr.cfg["critic"], "td7:targets-are-distinct-clones")
+            for at, lst in hard.items():
+                for j in range(0, len(lst), 4):
+                    grp = lst[j:j + 4]
+                    if len(grp) == 4:
+                        srcs = [g["args"][0] for g in grp]
+                        dsts = [g["args"][1] for g in grp]
+                        ctx.check(srcs[0] is tr.cfg["actor"] and dsts[0] is res.actor_target, "td7:actor->actor_target")
+                        ctx.check(srcs[1] is tr.cfg["critic"] and dsts[1] is res.critic_target, "td7:critic->critic_target")
+                        ctx.check(srcs[2] is res.fixed_embedding and dsts[2] is res.fixed_embedding_target, "td7:fixed_embedding->fixed_embedding_target")
+                        ctx.check(srcs[3] is tr.cfg["embedding"] and dsts[3] is res.fixed_embedding, "td7:embedding->fixed_embedding")
+        return prog
+    for K in Ks:
+        rep.run(f"cadence:train_td7[K={K}]", td7_prog(K), fn="rl_blox.algorithm.td7.train_td7/_train_step", site_of=lambda label: f"train_td7:{label}")
+
+    def mrq_prog(K):
+        def prog(ctx):
+            tr = L.run_mrq(ctx, K, 0, symbolic=("learning_starts", "target_delay"))
+            hard = _events_at(tr, "hard_target_net_update")
+            ls, td = tr.cfg["learning_starts"], tr.cfg["target_delay"]
+            pwe, q = tr.cfg["policy_with_encoder"], tr.cfg["q"]
+            pt, qt = tr.cfg["policy_with_encoder_target"], tr.cfg["q_target"]
+            ctx.check(pt is not pwe and qt is not q, "target-network-shares-no-storage-with-the-online-network(distinct clone)")
+            epoch = 0
+            for k in range(1, tr.env.n_steps + 1):
+                s_ = tr.loop_step_of(k)
+                trained = s_ >= ls
+                epoch = epoch + (E.wrap(E.z3.If(E.as_z3_bool(trained), 1, 0)) if not isinstance(trained, bool) else int(trained))
+                want = trained & ((epoch % td) == 0)
+                got = hard.get(k, [])
+                ctx.check((len(got) == 2) == want, "mrq:hard-updates-exactly-every-target_delay-training-epochs")
+                ctx.check((len(got) == 0) | (len(got) == 2), "no-partial-target-update")
+                for p in got:
+                    a, b = p["args"][0], p["args"][1]
+                    ctx.check((a is pwe and b is pt) or (a is q and b is qt), "hard-update-copies-online->target")
+        return prog
+    for K in Ks:
+        rep.run(f"cadence:train_mrq[K={K}]", mrq_prog(K), fn="rl_blox.algorithm.mrq.train_mrq", site_of=lambda label: f"train_mrq:{label}")
 
 
 def replay(path):
